@@ -57,7 +57,10 @@ pub enum Ended<T> {
 
 pub fn catch<T>(f: impl FnOnce() -> T) -> Ended<T> {
     LAST.with(|c| *c.borrow_mut() = None);
-    match catch_unwind(AssertUnwindSafe(f)) {
+    super::alloc::enter_codec();
+    let r = catch_unwind(AssertUnwindSafe(f));
+    super::alloc::leave_codec();
+    match r {
         Ok(v) => Ended::Returned(v),
         Err(payload) => {
             if payload.downcast_ref::<StepBudgetExceeded>().is_some() {
